@@ -1301,7 +1301,7 @@ def run(tier, rng):
                       'generated_directives': dir_hist, 'features': dict(sorted(feat_hist.items()))}
 
     # B / C: split each ledger's statements into chunks so that the pool is busy
-    per_ledger = 200 if thorough else 64
+    per_ledger = 200 if thorough else 56
     jobs = []
     for path, text in ledgers:
         specs = ledger_specs(rng, per_ledger, thorough)
